@@ -95,6 +95,7 @@ def api_main(ctx, kinds=("q", "p", "h")):
     cs += [c for c in corpora.fam_lengths(s, 100) if c[2] in kinds]
     cs += corpora.fam_long(s, kinds)
     cs += corpora.fam_pairs(s, kinds, quick=q)
+    cs += corpora.fam_name_pairs(s, kinds)
     return cs
 
 
@@ -362,7 +363,7 @@ def small_bases(ctx, n, maxlen=160):
 def run_C02(ctx):
     if not need(ctx, ["default"]):
         return
-    bases = small_bases(ctx, 700 if ctx.quick else 12000)
+    bases = small_bases(ctx, 700 if ctx.quick else 12000) + corpora.lines_bases(ctx.seed, 500 if ctx.quick else 8000)
     pre = corpora.prefixes(bases)
     # one replaced byte: the verdict reached a few bytes after it must be the verdict on the whole buffer
     mb, mp = corpora.mutated_windows(bases[:(36 if ctx.quick else 600)])
@@ -438,7 +439,7 @@ def ascii_variant(b):
 def run_C11(ctx):
     if not need(ctx, ["default"]):
         return
-    bases = small_bases(ctx, 400 if ctx.quick else 8000)
+    bases = small_bases(ctx, 400 if ctx.quick else 8000) + corpora.lines_bases(ctx.seed, 400 if ctx.quick else 6000)
     pre = corpora.prefixes(bases)
     # plus: every position of a sample of bases with a wrong byte as the last byte received
     nb = 90 if ctx.quick else 1500
@@ -761,6 +762,9 @@ def check_all_switches_build(ctx, stds=(True, False)):
         env = {"CARGO_TARGET_DIR": os.path.join(BUILD, "cargo", "switches", name), "RUSTFLAGS": " ".join(flags)}
         cmd = ["cargo", "check", "--offline", "--lib"] + ([] if std else ["--no-default-features"])
         rc, out = sh(cmd, cwd=REPO, env=env, timeout=900)
+        if rc == 0:
+            # cfg(debug_assertions) can gate code too: the optimised profile must build as well
+            rc, out = sh(cmd + ["--release"], cwd=REPO, env=env, timeout=900)
         return c, rc, out
 
     with cf.ThreadPoolExecutor(max_workers=8) as ex:
@@ -1049,7 +1053,15 @@ def run_C18(ctx):
 
 # ---------------------------------------------------------------- C19
 def run_C19(ctx):
-    if not need(ctx, ["default", "nostd"]):
+    if not need(ctx, ["default"]):
+        return
+    ok, out = build_harnesses(["nostd"])["nostd"]
+    if not ok:
+        err = [l for l in out.splitlines() if l.startswith("error")][:3]
+        ctx.fail("nostd-harness-build", "with the std feature disabled the crate does not build in the release profile "
+                 "(harness variant nostd: cargo build --release --no-default-features, RUSTFLAGS=--cfg httparse_verif): "
+                 + " | ".join(err)[:400])
+        check_all_switches_build(ctx, stds=(False,))
         return
     cases = api_main(ctx) + corpora.fam_chunk(ctx.seed, 1000 if ctx.quick else 30000) + extras(ctx, "C14")
     for variant in ("default", "nostd"):
@@ -1071,10 +1083,12 @@ def run_C19(ctx):
     check_all_switches_build(ctx, stds=(False,))
     # the crate alone, against core only
     env = {"CARGO_TARGET_DIR": os.path.join(BUILD, "cargo", "nostd-lib")}
-    rc, out = sh(["cargo", "build", "--offline", "--lib", "--no-default-features"], cwd=REPO, env=env, timeout=600)
-    ctx.evaluations += 1
-    if rc != 0:
-        ctx.fail("nostd-build", "cargo build --no-default-features fails: " + out[-400:])
+    for prof in ([], ["--release"]):
+        rc, out = sh(["cargo", "build", "--offline", "--lib", "--no-default-features"] + prof, cwd=REPO, env=env, timeout=600)
+        ctx.evaluations += 1
+        if rc != 0:
+            err = [l for l in out.splitlines() if l.startswith("error")][:3]
+            ctx.fail("nostd-build", "cargo build --no-default-features %s fails: %s" % (" ".join(prof), " | ".join(err)[:400]))
 
 
 # ---------------------------------------------------------------- C20
